@@ -71,11 +71,50 @@ def c16_runs(tier):
     return runs
 
 
+def c12_runs(tier):
+    th = tier == "thorough"
+    runs = []
+    for b in (0, 1, 2):
+        runs.append(("main", ["--mode", "narrow", "--depth", "14" if th else "11", "--b", str(b)]))
+        runs.append(("main", ["--mode", "flow", "--depth", "12" if th else "10", "--b", str(b)]))
+    runs.append(("main", ["--mode", "map", "--depth", "12" if th else "9"]))
+    runs.append(("main", ["--mode", "wide", "--depth", "6" if th else "5"]))
+    for a in range(1, 8):
+        runs.append(("main", ["--mode", "start", "--a", str(a), "--depth", "6" if th else "5"]))
+    return runs
+
+
+def c12_post(configs):
+    """Translation invariance: the same run from two clock origins must explore the same graph."""
+    out = []
+    by = {}
+    for c in configs:
+        args = c["args"].split()
+        if "--b" in args and args[args.index("--b") + 1] in ("0", "1"):
+            i = args.index("--b")
+            key = " ".join(args[:i] + args[i + 2:])
+            by.setdefault(key, []).append(c["extra"].get("origin_signature"))
+    for k, sigs in by.items():
+        if len(sigs) == 2 and sigs[0] != sigs[1] and not any(c.get("cap") in ("deadline", "stopped-after-violation") for c in configs):
+            out.append(("time-translation-variance", "run [%s] differs between clock origins: %s vs %s" % (k, sigs[0], sigs[1])))
+    return out
+
+
 EMIT = {"main": {"sources": MC + ["checks/emit.c"], "modes": ["c06", "c10"]}}
 OBS = {"main": {"sources": MC + ["checks/obs.c"], "modes": ["c07", "c19"]}}
 PROTO = {"main": {"sources": MC + ["checks/proto.c"], "modes": ["c02", "c03", "c09"]}}
 
 PROPS = {
+    "C12": {
+        "builds": {"main": {"sources": MC + ["mc/darwin.c", "checks/c12.c"], "modes": ["narrow", "wide", "start", "map", "flow"]}},
+        "runs": c12_runs, "post": c12_post, "level": "model_checking", "parallel": 8,
+        "timeout": {"quick": 900, "thorough": 3000},
+        "technique": "timed explicit-state BFS over the real automata_tick / session table / RepeatBand code with a virtual clock: every interleaving of tick, clock advance, table, band and FSM operations up to a depth (API-level driver, narrow-deep / wide-shallow / from non-initial start states) and of the documented Darwin frame flow; monitors evaluated inside the send_hello callback",
+        "assumptions": ["depth-bounded (the bound completed is reported per run); time-abstracted key (timestamps relative to now, saturated), checked from two clock origins",
+                        "clock origin 0 excluded: last_hello_tx_ms == 0 is the code's documented 'never sent' sentinel",
+                        "mc/darwin.c transcribes darwin-main.c:262-404 (trusted base); r saturated at 16 in the key",
+                        "visited set stores 128-bit hashes (hash compaction)"],
+    },
     "C11": {
         "engine": "sweep",
         "builds": {"main": {"sources": MC + ["checks/c11.c"]}}, "runs": lambda tier: [("main", [])], "level": "exploration",
